@@ -11,14 +11,14 @@ From AV Require Import Base.Prelude Model.Stream Proofs.StreamProofs.
 
 (* Central theorem.  For every window, every program of read() / read(0) / readexactly(n) /
    readuntil(one separator) / readuntil(separators of one common length) / readline() calls, and every
-   schedule that ends with a turn of the consumer: if no empty chunk was delivered, nothing was delivered
-   after EOF and (when the program searches for separators) everything delivered fits in the window or there
-   is no window, then the list of values returned and exceptions raised is [spec_prog], a function of the
-   delivered tokens and the EOF flag only.  Chunk boundaries, arrival times relative to the calls, pause and
-   resume, and synchronous deliveries inside resume_reading do not appear in it. *)
+   schedule that ends with a turn of the consumer: if nothing was delivered after EOF and (when the program
+   searches for separators) everything delivered fits in the window or there is no window, then the list of
+   values returned and exceptions raised is [spec_prog], a function of the delivered tokens and the EOF flag
+   only.  Chunk boundaries, empty chunks (ignored since b8d274c), arrival times relative to the calls, pause
+   and resume, and synchronous deliveries inside resume_reading do not appear in it. *)
 Theorem C19_results_determined : forall lim prog sch orc,
   let w := run_sched lim prog (sch ++ [SRun orc]) in
-  Forall op_ok prog -> chunks_ok (dl (w_sess w)) -> late (w_sess w) = false ->
+  Forall op_ok prog -> late (w_sess w) = false ->
   (has_until prog = true -> lim = 0 \/ rlen (dl (w_sess w)) < lim) ->
   w_res w = spec_prog prog (toks (dl (w_sess w))) (eof (w_sess w)).
 Proof. exact sched_results. Qed.
@@ -30,8 +30,7 @@ Theorem C19_chunking_independent : forall lim prog sch1 orc1 sch2 orc2,
   let w1 := run_sched lim prog (sch1 ++ [SRun orc1]) in
   let w2 := run_sched lim prog (sch2 ++ [SRun orc2]) in
   Forall op_ok prog ->
-  chunks_ok (dl (w_sess w1)) -> late (w_sess w1) = false ->
-  chunks_ok (dl (w_sess w2)) -> late (w_sess w2) = false ->
+  late (w_sess w1) = false -> late (w_sess w2) = false ->
   (has_until prog = true -> lim = 0 \/ (rlen (dl (w_sess w1)) < lim /\ rlen (dl (w_sess w2)) < lim)) ->
   toks (dl (w_sess w1)) = toks (dl (w_sess w2)) -> eof (w_sess w1) = eof (w_sess w2) ->
   w_res w1 = w_res w2.
@@ -170,12 +169,14 @@ Theorem C19_drain_released : forall s,
 Proof. exact drain_released. Qed.
 Print Assumptions C19_drain_released.
 
-(* ---- where the hypotheses are needed: the model of the unchanged code violates the statement ----- *)
+(* ---- the code before the repairs b8d274c and d47620c (run_sched_old = the model with the old
+   data_received and the old readuntil branch) violated the statement; these three theorems are about the old
+   definitions only and record the findings ----------------------------------------------------------- *)
 
 (* An empty chunk (what the channel's incremental decoder hands over when a packet ends inside a multi-byte
    character) makes read(5) return an empty result although EOF has not been received and data follows. *)
 Theorem C19_empty_chunk_eof_refuted : exists sch,
-  let w := run_sched 0 [OpRead 5; OpRead 5] sch in
+  let w := run_sched_old 0 [OpRead 5; OpRead 5] sch in
   w_res w = [ROk []; ROk [97]] /\ eof (w_sess w) = false.
 Proof.
   exists [SDeliver (EvData []); SRun []; SDeliver (EvData [97]); SRun []]. vm_compute. split; reflexivity.
@@ -185,8 +186,8 @@ Print Assumptions C19_empty_chunk_eof_refuted.
 (* An empty chunk followed by a break/signal makes readline raise TypeError (the empty chunk is popped in
    place of the exception); the same tokens without the empty chunk raise the exception. *)
 Theorem C19_empty_chunk_typeerror_refuted : exists sch1 sch2,
-  let w1 := run_sched 0 [OpLine] sch1 in
-  let w2 := run_sched 0 [OpLine] sch2 in
+  let w1 := run_sched_old 0 [OpLine] sch1 in
+  let w2 := run_sched_old 0 [OpLine] sch2 in
   toks (dl (w_sess w1)) = toks (dl (w_sess w2)) /\ w_res w1 = [RTypeError] /\ w_res w2 = [RRaise 9].
 Proof.
   exists [SDeliver (EvData []); SDeliver (EvExn 9); SRun []], [SDeliver (EvExn 9); SRun []].
@@ -198,12 +199,20 @@ Print Assumptions C19_empty_chunk_typeerror_refuted.
    exception have been consumed; the next readline then returns an empty line although there is no EOF,
    no exception and an empty buffer. *)
 Theorem C19_stale_pause_refuted : exists sch,
-  let w := run_sched 4 [OpLine; OpLine; OpLine] sch in
+  let w := run_sched_old 4 [OpLine; OpLine; OpLine] sch in
   w_res w = [ROk [97;97;97;97;97]; RRaise 9; ROk []] /\ eof (w_sess w) = false /\ rbuf (w_sess w) = [].
 Proof.
   exists [SDeliver (EvData [97;97;97;97;97]); SDeliver (EvExn 9); SRun []]. vm_compute. repeat split; reflexivity.
 Qed.
 Print Assumptions C19_stale_pause_refuted.
+
+(* the same three schedules on the repaired model *)
+Example C19_repaired :
+  w_res (run_sched 0 [OpRead 5; OpRead 5] [SDeliver (EvData []); SRun []; SDeliver (EvData [97]); SRun []]) = [ROk [97]] /\
+  w_res (run_sched 0 [OpLine] [SDeliver (EvData []); SDeliver (EvExn 9); SRun []]) = [RRaise 9] /\
+  (let w := run_sched 4 [OpLine; OpLine; OpLine] [SDeliver (EvData [97;97;97;97;97]); SDeliver (EvExn 9); SRun []] in
+   w_res w = [ROk [97;97;97;97;97]; RRaise 9] /\ rpaused (w_sess w) = false).
+Proof. vm_compute. repeat split; reflexivity. Qed.
 
 (* ---- examples (non-vacuity, and the two documented limits) ------------------------------------ *)
 
